@@ -447,8 +447,17 @@ pub fn c14_script(r: &mut Rng, _index: u64, _tier: Tier) -> (CaseCfg, Vec<Step>)
         }
         // the client's own limit: receive buffers on both sides of 64 KiB are advertised exactly
         6 => {
-            cfg.rx = *r.pick(&[65_535usize, 65_536, 65_537, 70_000, 131_072]);
+            cfg.rx = *r.pick(&[64usize, 100, 128, 65_535, 65_536, 65_537, 70_000, 131_072]);
             s.push(connect_with(SpMode::Force(false), AckMode::Immediate, vec![]));
+            // a PUBLISH that fills the receive buffer exactly, or misses that by a byte or two
+            {
+                let total = cfg.rx - *r.pick(&[0usize, 0, 1, 2]);
+                let rlb = if total >= 16_384 + 4 { 3 } else if total >= 128 + 3 { 2 } else { 1 };
+                let overhead = 1 + rlb + 2 + 3 + 1;
+                s.push(Step::Broker(BrokerAct::Send(SPacket::Publish { dup: false, qos: 0, retain: false, topic: "fit".into(), pid: None, props: vec![], payload: vec![5; total - overhead] })));
+                s.push(poll0());
+                s.push(poll0());
+            }
             s.push(Step::Broker(BrokerAct::Send(SPacket::Publish { dup: false, qos: 0, retain: false, topic: "big".into(), pid: None, props: vec![], payload: vec![7; *r.pick(&[10usize, 65_000])] })));
         }
         // first delivery of a QoS 1 / QoS 2 publish under the tiny limit
